@@ -100,45 +100,90 @@ def load_known():
         return json.load(fp).get("findings", [])
 
 
+def _decode_model_value(v, ann):
+    """counter-model entry -> native Python value (str / int / bool / Optional[...] / list[str]); raises ValueError"""
+    import re as _re
+
+    def unq(t):
+        t = t[1:-1].replace('""', '"')
+        return _re.sub(r"\\u\{([0-9a-fA-F]+)\}", lambda m: chr(int(m.group(1), 16)), t)
+    if v["kind"] in ("str", "int", "bool"):
+        return v["value"]
+    if v["kind"] != "sexpr":
+        raise ValueError(v["kind"])
+    t = v["value"].strip()
+    if t.startswith("none_"):
+        return None
+    m = _re.fullmatch(r"\(some_\w+ (.*)\)", t, _re.S)
+    if m:
+        inner = m.group(1).strip()
+        if inner.startswith('"'):
+            return unq(inner)
+        if inner in ("true", "false"):
+            return inner == "true"
+        if _re.fullmatch(r"-?\d+|\(- \d+\)", inner):
+            return int(inner.replace("(- ", "-").replace(")", ""))
+        raise ValueError(inner)
+    if "seq" in t and ("list" in ann or "Sequence" in ann or "tuple" in ann):
+        if "seq.empty" in t and '"' not in t:
+            return []
+        return [unq(x) for x in _re.findall(r'"(?:[^"]|"")*"', t)]
+    raise ValueError(t[:40])
+
+
 def generic_replay(qualname):
-    """Replay for functions over str/int/bool arguments: call the real function on the counter-model and
-    evaluate the same postcondition function natively."""
+    """Replay for functions over str / int / bool / Optional / list[str] arguments: call the real function on the
+    counter-model and evaluate the same contract clauses (raises_iff conditions, postcondition) natively."""
     def run(model, vc):
         from . import api
         import inspect
         c = api.CONTRACTS[qualname]
-        from .engine import Engine
-        func = Engine.resolve(None, qualname) if False else _resolve(qualname)
+        func = _resolve(qualname)
         params = list(inspect.signature(func).parameters)
         kwargs = {}
         for p in params:
+            ann = str(c.types.get(p, "str"))
             hit = [v for k, v in (model or {}).items() if k.split("!")[0] == p]
-            if hit and hit[0]["kind"] in ("str", "int", "bool"):
-                kwargs[p] = hit[0]["value"]
-            else:
-                ann = c.types.get(p, "str")
-                kwargs[p] = {"str": "", "int": 0, "bool": False}.get(ann, "")
+            try:
+                if not hit:
+                    raise ValueError("not in the model")
+                kwargs[p] = _decode_model_value(hit[0], ann)
+            except ValueError:
+                default = inspect.signature(func).parameters[p].default
+                kwargs[p] = default if default is not inspect.Parameter.empty else (
+                    None if ann.startswith("Optional") else {"int": 0, "bool": False}.get(ann, [] if "list" in ann else ""))
         try:
             result = func(**kwargs)
             exc = None
         except Exception as e:  # noqa
             result, exc = None, e
-        detail = {"function": qualname, "inputs": kwargs, "result": repr(result), "exception": repr(exc)}
-        if exc is not None:
-            allowed = [k for k in list(c.raises) + list(c.raises_iff) if isinstance(exc, k)]
-            detail["replayed"] = not allowed
-            return detail
-        if c.post is not None:
-            try:
-                ok = c.post(**{**{k: v for k, v in kwargs.items() if k in inspect.signature(c.post).parameters}, "result": result})
-            except NotImplementedError:
-                detail["replayed"] = False
-                detail["note"] = "postcondition has no native evaluation"
+        detail = {"function": qualname, "inputs": {k: (v if isinstance(v, (str, int, bool, list, type(None))) else repr(v)) for k, v in kwargs.items()},
+                  "result": repr(result), "exception": repr(exc)}
+
+        def call(fn, extra=None):
+            names = inspect.signature(fn).parameters
+            return fn(**{k: v for k, v in {**kwargs, **(extra or {})}.items() if k in names})
+        try:
+            for cls, cond in c.raises_iff.items():
+                expected = bool(call(cond))
+                raised = exc is not None and isinstance(exc, cls)
+                if expected != raised:
+                    detail["replayed"] = True
+                    detail["note"] = f"{cls.__name__} {'expected' if expected else 'not expected'} by the contract, {'raised' if raised else 'not raised'} by the code"
+                    return detail
+            if exc is not None:
+                allowed = [k for k in list(c.raises) + list(c.raises_iff) if isinstance(exc, k)]
+                detail["replayed"] = not allowed
                 return detail
-            detail["expected_post"] = bool(ok)
-            detail["replayed"] = not ok
-        else:
+            if c.post is not None:
+                ok = call(c.post, {"result": result})
+                detail["expected_post"] = bool(ok)
+                detail["replayed"] = not ok
+            else:
+                detail["replayed"] = False
+        except (NotImplementedError, TypeError, AttributeError) as e:
             detail["replayed"] = False
+            detail["note"] = f"contract clause has no native evaluation on these values: {e!r}"
         return detail
     return run
 
